@@ -422,8 +422,11 @@ func (bkt *Bucket) set(ki *KeyInfo, v *Payload) error {
 	if err != nil {
 		return err
 	}
-	bkt.htree.set(ki, &v.Meta, pos)
+	// the hint buffer learns about the record before the tree does: a GC pass that finds the tree slot of this
+	// key hash taken by another key looks for the reason in the hint buffers (getCollisionGC), and would otherwise
+	// drop the current record of a colliding key when its check falls between the two updates
 	bkt.hints.set(ki, &v.Meta, pos, v.RecSize, "set")
+	bkt.htree.set(ki, &v.Meta, pos)
 	return nil
 }
 
